@@ -85,6 +85,35 @@ pub fn run(job: &Value, t: &mut Trace) -> usize {
         if !ok {
             continue;
         }
+        // the same frames through ONE writer, with refused calls in between (parameters no frame header can carry): what reaches the
+        // output must be exactly the accepted frames, numbered consecutively from 0 (C02 for raw frame streams)
+        if a["log_frames"].as_bool().unwrap_or(false) {
+            let mut out = vec![];
+            let mut refused = 0i64;
+            let mut accepted: Vec<Value> = vec![];
+            let res = catch(|| {
+                let mut w = FlacStreamWriter::new(&mut out, Options::default());
+                for (i, f) in frames.iter().enumerate() {
+                    // before every frame but the first, calls that must be refused without a trace in the stream
+                    if i > 0 {
+                        let bad: [(u32, u8, u32, usize); 4] = [(1_234_567, f.channels, f.bps, 16), (f.rate, 0, f.bps, 16), (f.rate, 9, f.bps, 16), (f.rate, f.channels, 17, 16)];
+                        let (r, c, b, n) = bad[(i + f.samples.len()) % 4];
+                        let junk = vec![0i32; n * c.max(1) as usize];
+                        if w.write(r, c, b, &junk).is_err() {
+                            refused += 1;
+                        } else {
+                            accepted.push(json!({"rate": r as i64, "channels": c as i64, "bps": b as i64, "samples": junk.iter().map(|s| *s as i64).collect::<Vec<_>>()}));
+                        }
+                    }
+                    if w.write(f.rate, f.channels, f.bps, &f.samples).is_ok() {
+                        accepted.push(json!({"rate": f.rate as i64, "channels": f.channels as i64, "bps": f.bps as i64,
+                            "samples": f.samples.iter().map(|s| *s as i64).collect::<Vec<_>>()}));
+                    }
+                }
+            });
+            t.emit(json!({"ev": "sequence", "id": a["id"], "panicked": res.is_err(), "refused": refused, "accepted": accepted,
+                "bytes": Value::from(out.iter().map(|b| *b as i64).collect::<Vec<_>>())}));
+        }
         // the frames must be self-describing: hand them to the format model
         if a["log_frames"].as_bool().unwrap_or(false) {
             for (i, f) in frames.iter().enumerate() {
